@@ -8,9 +8,21 @@ HOOKS = {
     "source_commits": [],
     "add_only": True,
 }
+def _core(prop_text, note_extra=""):
+    return {
+        "engine": "core",
+        "technique": "TLA+ API-level specification (Mv2Core) model-checked by TLC; real Memvid histories (seeded random, TLC-simulated behaviours, targeted families) recorded call-by-call and validated by TLC against the specification (trace validation with full projected state)",
+        "text": prop_text,
+        "note": "Trusts TLC, the harness projection/concretisation (payload-id table, file-byte parser) and tmpfs semantics; crash-free histories plus `abandon` (handle lost between calls). Known genuine defects are modelled as named deviation actions and reported as KNOWN-FINDING (known_findings.json). " + note_extra,
+        "design_ref": "DESIGN.md §4.2, §6",
+    }
+
+
 ENGINES = [
     {"name": "walring", "path": "lib/eng_walring.py", "serves_properties": ["C05"],
      "kind_free_text": "WalRing/WalAbs TLA+ models; transition tour of the TLC state graph replayed on the real EmbeddedWal; random real runs validated by TLC"},
+    {"name": "core", "path": "lib/eng_core.py", "serves_properties": ["C01", "C06", "C07", "C08", "C15", "C19", "C24", "C25"],
+     "kind_free_text": "Mv2Core TLA+ specification; harness `mvh core-run` executes abstract histories on the real Memvid and logs the projected abstract state; Trace_Mv2Core validates every call; MC_Mv2Core is model-checked and used as scenario generator"},
 ]
 NOT_YET = "check not built yet in this revision of the machinery (see DESIGN.md §12 for the build order)"
 NOT_APPLICABLE = {
@@ -22,6 +34,14 @@ NOT_APPLICABLE = {
     "C39": "hash/bit-level filter and codec round-trip (DESIGN.md §7)",
 }
 CLAIMED = {
+    "C01": _core("Every recorded history of put/update/delete/commit/close/abandon/reopen calls on the real crate must be a behaviour of Mv2Core: after each commit, drop, auto-commit, log growth and replay-on-open the full frame table (ids, URIs, status, order, timestamps) equals what the specification computes from the acknowledged calls, with the log's real record lengths deciding when an automatic checkpoint or a region growth had to happen. The specification itself is model-checked (NothingLostOnCommit, ApplyIsAppendOnly, RejectedUnchanged)."),
+    "C06": _core("next_frame_id() before every put, the id of every frame, chunk parent links and chunk index/count are compared with the specification after every call (NextIdPredicts / ApplyIsAppendOnly are model-checked invariants)."),
+    "C07": _core("The payload id (digest of frame_canonical_payload looked up in the table of concretised payloads), blob-reader equality and chunk concatenation of every frame are compared with the specification at every full observation; payload classes: binary, zero-filled, short text, text above the chunking threshold."),
+    "C08": _core("Status, supersedes/superseded_by links, frame_by_uri results and the results of update/delete calls are compared with the specification (UriNewest, OneActiveSuccessor, LinksConsistent are model-checked)."),
+    "C15": _core("Every timeline() call issued in the histories (since/until/reverse/limit) must return exactly the sequence the specification computes from the visible frame table (active document frames by (timestamp, id)).", "Frame roles other than document/chunk are exercised by the query engine, not here."),
+    "C19": _core("The directory listing is logged after every call (successful or failing) of every history and must be exactly the one .mv2 file."),
+    "C24": _core("Capacity: CapacityExceeded results and the payload end after every commit are compared with the specification's capacity rule; histories with tickets granting a few KB above the data start and stored-plain payloads of boundary sizes."),
+    "C25": _core("Ticket sequence and capacity are logged after every call; apply_ticket with increasing, equal and decreasing sequence numbers, also across reopen, must behave as ApplyTicket (TicketMonotone is model-checked).", "Signed tickets are not covered by this check yet."),
     "C05": {
         "engine": "walring",
         "technique": "TLA+ cell-level model (WalRing) exhaustively checked by TLC + refinement to WalAbs; every TLC transition replayed on the real EmbeddedWal; recorded real runs validated against WalAbs by TLC",
